@@ -143,7 +143,7 @@ def main():
     import props
     pid = a.property
     P = props.PROPS[pid]
-    st = prepare(mpi=bool(P.get('mpi')))
+    st = prepare(mpi=bool(P.get('mpi')) or pid in ('C02', 'C04', 'C12', 'C19', 'C20'))
     broken = []           # stages / obligations that no longer check
     for k in ('translator', 'cxx', 'extraction'):
         if not st[k][0]:
